@@ -110,6 +110,12 @@ def parse_tlc_output(out, res):
         res.postcondition_failed = True
     if "Model checking completed. No error has been found." in out:
         res.ok = True
+    ms = re.search(r"The number of states generated: (\d+)", out)
+    if ms and "Simulation using seed" in out:
+        res.generated = int(ms.group(1))
+        res.distinct = res.distinct or res.generated
+        if not re.search(r"^Error:", out, re.M):
+            res.ok = True
     if not res.ok and not res.violated and not res.deadlock and not res.postcondition_failed:
         errs = [ln for ln in out.splitlines() if ln.startswith("Error:")]
         res.error = "\n".join(errs[:5]) if errs else "TLC did not complete"
